@@ -28,6 +28,25 @@ def reference(cls, cid, funcs, h):
     return ref
 
 
+def write_values(f):
+    """a few valid values to assign to a function"""
+    from ynca import converters as C
+
+    cv = f.converter
+    parts = cv._converters if type(cv) is C.MultiConverter else [cv]
+    out = []
+    for p in parts:
+        if type(p) is C.EnumConverter:
+            out += [m for n, m in p.datatype.__members__.items() if n != "UNKNOWN"][:3]
+        elif type(p) is C.StrConverter:
+            out += ["Written"]
+        elif type(p) in (C.IntConverter, C.IntOrNoneConverter):
+            out += [4]
+        elif type(p) is C.FloatConverter:
+            out += [-42.5, 5.0]
+    return out
+
+
 def run(chk: Check):
     rng = random.Random(chk.seed)
     chk.build(PROP_FILE)
@@ -70,6 +89,22 @@ def run(chk: Check):
                             sib_hist.append(x)
                         except Exception:  # noqa: judged on the primary path
                             pass
+                if rng.random() < 0.08:
+                    # the application WRITES one of the attributes between two reports: what attributes read is still
+                    # the last REPORTED value (the device may refuse, round or ignore what was written)
+                    from ynca.function import Cmd as _Cmd
+
+                    wr = [(a, f) for a, f in funcs if _Cmd.PUT in f.cmd and _Cmd.GET in f.cmd]
+                    if wr:
+                        a, f = rng.choice(wr)
+                        cur = getattr(inst, a)
+                        cand = [x for x in write_values(f) if x != cur]
+                        if cand:
+                            try:
+                                setattr(inst, a, rng.choice(cand))
+                                dist["writes_between_reports"] = dist.get("writes_between_reports", 0) + 1
+                            except Exception:  # noqa: C05's matter
+                                pass
                 try:
                     deliver(conn, m)
                 except Exception as e:  # noqa
